@@ -753,8 +753,13 @@ def check_C06(v, tier, seed):
     # procfs symlinks (net, self, thread-self) replaced by links into another process, one at a time
     masks += [4096, 8192, 16384]
     runs = [Run("C06-overmount", ["proc-overmount", "--masks", ",".join(str(m) for m in masks)])]
+    # with the over-mounts in place, every mount-id / fs-type probe of a lookup fails in turn with ENOSYS, EINVAL
+    # ("cannot tell") and EACCES: the verification has to fail closed, the over-mounted object is never returned
+    runs.append(Run("C06-overmount-faults", ["proc-overmount", "--masks", "0,4095" + (",4087,1365" if tier == "thorough" else ""),
+                                             "--faults"]))
     if tier == "thorough":
         runs.append(Run("C06-overmount-enosys", ["proc-overmount", "--masks", "0,4095,4087", "--no-openat2"]))
+        runs.append(Run("C06-overmount-enosys-faults", ["proc-overmount", "--masks", "0,4095", "--no-openat2", "--faults"]))
     concrete = set()
     stats = {"visible_overmounted_lookups": 0, "exdev": 0, "private_lookups": 0, "skipped": 0}
     for r in runs:
@@ -820,7 +825,9 @@ def check_C06(v, tier, seed):
                 concrete.add((r.name, c.id))
     broken = generic_tie(v, runs, concrete)
     cov = coverage_of(runs, nontrivial=lambda c: c.meta.get("mask") not in (None, "0"),
-                      key=lambda c: (c.meta.get("mask"), c.meta.get("handle"), c.cfg.get("hemu"), tuple(c.op)))
+                      key=lambda c: (c.meta.get("mask"), c.meta.get("handle"), c.cfg.get("hemu"), tuple(c.op),
+                                     repr(c.extra.get("fault"))))
+    cov["probe_faults_with_overmounts"] = sum(1 for r in runs for c in r.cases if c.extra.get("fault"))
     cov["rule"] = ("private mount namespace; subsets (masks) of 12 over-mountable procfs entries (files, directories, symlinks, "
                    "magic-links; tmpfs / foreign file / other procfs object) x 7 handle kinds x both resolvers x "
                    "{open O_PATH, open O_RDONLY, open_follow, readlink} on every candidate and on symlinks whose target is "
